@@ -449,6 +449,13 @@ func (s *rlState) consume(rc *raftexample.RaftNode, commitC <-chan *raftexample.
 					s.rep.Delivered++
 					idx, ok := ids[p.ID]
 					s.tr("  commit id=%s index=%d ondisk=%v | %s", p.ID, idx, ok, d)
+					if !ok && d.snapIndex > s.lastDeliv {
+						// the raft loop runs on while this goroutine waits for the mutex: a snapshot received from a peer and saved meanwhile covers
+						// every entry up to its index, this one possibly among them (it is not in the readable log any more, and was when it was
+						// delivered) - inconclusive, not an error (seen once in ~300 runs: snap=11 last=11 read for a batch delivered before it)
+						s.tr("  commit id=%s: not in the readable log, snapshot %d beyond the last delivered index %d: covered", p.ID, d.snapIndex, s.lastDeliv)
+						continue
+					}
 					if !ok {
 						s.violate("E4", "proposal %s is handed to the state machine (applied, then acknowledged to its client) but no entry carrying it is "+
 							"in the on-disk log (%s)", p.ID, d)
